@@ -710,3 +710,17 @@ def d8(cx: Cx, ob: Ob) -> None:
             ob.undecide(f"text written by write_extended_prefix_map (`{show(text)[:50]}`) not recognised as json.dumps(...)")
     if not found:
         ob.undecide("write_extended_prefix_map: no write of the JSON text found")
+
+
+@obligation("C14-X25", "per-record output: in the writers (SHACL, JSON-LD context, extended prefix map, TSV) and the helpers they call, nothing computed for one record is carried over into the line / entry written for the next one (a local set before the record loop or only conditionally inside it)", floor=2)
+def x25(cx: Cx, ob: Ob) -> None:
+    from ..rules import carried_into_outputs
+
+    carried_into_outputs(cx, ob, [f"{API}.write_shacl", f"{API}._get_jsonld_context", f"{API}.write_extended_prefix_map", f"{API}.write_tsv"], "a writer emits one entry per record")
+
+
+@obligation("C14-X1", "OWN (shared with C10): the writers and the helpers they call neither store into nor mutate the Record objects (or their synonym lists) of the converter they serialise - a converter changed by being written no longer reads back to itself", floor=6)
+def x1(cx: Cx, ob: Ob) -> None:
+    from .c10 import check_no_aliasing
+
+    check_no_aliasing(cx, ob)
